@@ -86,26 +86,46 @@ func verifSerialBuild(in *verifSerialIn, tag string) *verifSerialWorld {
 
 // call k of agent a (0/1) with its pre-drawn nonce
 func (w *verifSerialWorld) call(kind int, agent int, in *verifSerialIn) error {
+	_, err := w.callReply(kind, agent, in)
+	return err
+}
+
+// verifUpdateDigest is what a keep-alive's caller sees.
+func verifUpdateDigest(resp *UpdateResponse, err error) verifapi.Snap {
+	if err != nil || resp == nil {
+		return verifapi.Snapshot([]interface{}{"error", err != nil})
+	}
+	// (the balance a reply reports is the stored one at the moment it was read, which may already
+	// include the other caller's charge: the statement is about the resulting balances, so it is not compared)
+	return verifapi.Snapshot([]interface{}{len(resp.InvalidPeers), len(resp.ActivePeers)})
+}
+
+// callReply is call, also returning a digest of the reply the caller sees.
+func (w *verifSerialWorld) callReply(kind int, agent int, in *verifSerialIn) (verifapi.Snap, error) {
 	id := []string{verifapi.NodeID(0), verifapi.NodeID(2)}[agent]
 	nonce := in.nonces[agent]
 	ctx := context.Background()
 	switch kind {
 	case 0: // keep-alive
 		req := UpdateRequest{PeerInfo: VerifPeerInfos(verifapi.NodeID(1)), BlockNumber: 1}
-		_, err := w.p.Update(ctx, sigs.SignFor(id, "vipnode_update", nonce, req), id, nonce, req)
-		return err
+		resp, err := w.p.Update(ctx, sigs.SignFor(id, "vipnode_update", nonce, req), id, nonce, req)
+		return verifUpdateDigest(resp, err), err
 	case 1: // peer request
 		req := PeerRequest{Num: 1}
-		_, err := w.p.Peer(ctx, sigs.SignFor(id, "vipnode_peer", nonce, req), id, nonce, req)
-		return err
+		resp, err := w.p.Peer(ctx, sigs.SignFor(id, "vipnode_peer", nonce, req), id, nonce, req)
+		n := 0
+		if resp != nil {
+			n = len(resp.Peers)
+		}
+		return verifapi.Snapshot([]interface{}{n, err != nil}), err
 	case 2: // the shared host's own keep-alive (signed by the host)
 		hid := verifapi.NodeID(1)
 		req := UpdateRequest{BlockNumber: 2}
-		_, err := w.p.Update(ctx, sigs.SignFor(hid, "vipnode_update", nonce, req), hid, nonce, req)
-		return err
+		resp, err := w.p.Update(ctx, sigs.SignFor(hid, "vipnode_update", nonce, req), hid, nonce, req)
+		return verifUpdateDigest(resp, err), err
 	default: // reconnect as a client
 		_, err := VerifConnect(w.p, &VerifHost{Name: "c"}, id, false, "")
-		return err
+		return verifapi.Snapshot(err != nil), err
 	}
 }
 
@@ -127,14 +147,23 @@ func VerifC10Serial() {
 	now := verifapi.Now().UnixNano()
 	in.nonces = []int64{now + 1, now + 2}
 	// the two serial orders
-	ab.call(k0, 0, in)
-	ab.call(k1, 1, in)
-	ba.call(k1, 1, in)
-	ba.call(k0, 0, in)
+	abR0, _ := ab.callReply(k0, 0, in)
+	abR1, _ := ab.callReply(k1, 1, in)
+	baR1, _ := ba.callReply(k1, 1, in)
+	baR0, _ := ba.callReply(k0, 0, in)
 	// the concurrent run
 	done := make(chan error, 2)
-	go func() { done <- conc.call(k0, 0, in) }()
-	go func() { done <- conc.call(k1, 1, in) }()
+	var r0, r1 verifapi.Snap
+	go func() {
+		var err error
+		r0, err = conc.callReply(k0, 0, in)
+		done <- err
+	}()
+	go func() {
+		var err error
+		r1, err = conc.callReply(k1, 1, in)
+		done <- err
+	}()
 	e1, e2 := <-done, <-done
 	if e1 != nil {
 		verifapi.Observe("conc-error-a", e1.Error())
@@ -145,6 +174,10 @@ func VerifC10Serial() {
 	verifapi.Reach("c10.serial")
 	got := verifapi.Snapshot(conc.db)
 	verifapi.Assert(verifapi.Same(got, verifapi.Snapshot(ab.db)) || verifapi.Same(got, verifapi.Snapshot(ba.db)), "c10.final-state-equals-a-serial-order")
+	// ... and so do the peer verdicts and refusals the two callers got, in that same order
+	asAB := verifapi.Same(got, verifapi.Snapshot(ab.db)) && verifapi.Same(r0, abR0) && verifapi.Same(r1, abR1)
+	asBA := verifapi.Same(got, verifapi.Snapshot(ba.db)) && verifapi.Same(r0, baR0) && verifapi.Same(r1, baR1)
+	verifapi.Assert(asAB || asBA, "c10.replies-and-state-equal-one-serial-order")
 	// no lost update: every charge acknowledged is in the ledger
 	verifapi.Assert(len(conc.hosts[0].Calls) == len(ab.hosts[0].Calls) || len(conc.hosts[0].Calls) == len(ba.hosts[0].Calls), "c10.host-instructions-as-in-a-serial-order")
 }
